@@ -57,7 +57,11 @@ def gen_schedule(rng, n):
             # only the operation in progress can finish: the first pending one that has started.
             i = pending[0]
             x = rng.random()
-            if x < 0.3:
+            if x < 0.04:
+                ops.append("i:%d" % i)          # its body requests another serialized op on the node and waits for it (forbidden)
+                pending.append(nreq)
+                nreq += 1
+            elif x < 0.3:
                 ops.append("r:%d" % i)          # its current attempt collides; the next attempt begins
             elif x < 0.38:
                 ops.append("u:%d" % i)          # its current attempt collides and the backoffer gives up
@@ -95,6 +99,7 @@ def run_schedule_impl(ops):
         started = set()
         finished = set()
         giveup = {}
+        waits_for = {}     # op -> ops requested from inside its body whose results it waits for
         content = []
         snap = {}
         nreq = [0]
@@ -145,6 +150,7 @@ def run_schedule_impl(ops):
                 return d
             d = node._do_serialized(cb)
             d.addBoth(lambda res: log.append("D%d%s" % (i, "f" if isinstance(res, Failure) else "o")))
+            return i
 
         for op in ops:
             if op in ("q", "qo", "qf"):
@@ -154,6 +160,14 @@ def run_schedule_impl(ops):
             else:
                 t = op.split(":")
                 i = int(t[1])
+                if t[0] == "i":
+                    # the body of op i (in progress) calls _do_serialized on its own node and will not finish before that
+                    # operation did: the real chain is paused on op i, so the new callable must not run
+                    if i in inner and i not in finished and not inner[i].called:
+                        waits_for.setdefault(i, []).append(request("q"))
+                    continue
+                if t[0] in "fu" and any(j not in finished for j in waits_for.get(i, [])):
+                    continue            # its inner Deferred cannot fire yet
                 if i in inner and i not in finished and not inner[i].called:
                     if t[0] == "f" and t[2] == "o":
                         inner[i].callback("ok")
@@ -192,6 +206,8 @@ def monitor_log(ctx, ops, log):
         ctx.violation("operations started out of request order", {"ops": ops, "log": log}, "serializer-order")
     # failure does not block: if every started op has finished, every request made must have started
     nreq = sum(1 for o in ops if o[0] == "q")
+    if any(o.startswith("i:") for o in ops):
+        return      # a body that waits for its own node's queue: everything behind it is blocked by construction (Lean: self_enqueue_deadlocks)
     if all(i in fin for i in order) and len(order) != nreq:
         ctx.violation("a requested operation never started although nothing was in progress",
                       {"ops": ops, "log": log}, "serializer-blocked")
@@ -814,9 +830,117 @@ def collision_family(ctx, rounds):
         collision_scenario(ctx, gen_collision_params(ctx.rng, kd, policy))
 
 
+# ----------------------------------------------------------------------------- (e) read-only nodes whose first read attempt fails
+
+def readonly_retry_scenario(ctx, prm):
+    """A read-only node (file, or directory read through list()/has_child()) whose shares on the servers
+    that come first in the permuted order have one damaged block byte (valid signature: the quick MODE_READ
+    survey counts them), `intact` intact shares further out: the first attempt of download_best_version
+    fails with NotEnoughSharesError and the node retries with a full survey.  Several reads are requested
+    at once, one later, one after all shares were restored.  From the statement: every operation's
+    Deferred fires (data or error) once the grid is quiescent; a failed one does not block later ones;
+    they finish in request order."""
+    import grid
+    import shutil
+    from twisted.python.failure import Failure
+    from allmydata.mutable.publish import MutableData
+    from allmydata.interfaces import SDMF_VERSION, MDMF_VERSION
+    k, n, ns = prm["k"], prm["n"], prm["servers"]
+    with grid.Runtime(seed=prm["seed"], policy=prm["policy"]) as rt:
+        g = grid.Grid(grid.fresh_dir("c13e"), rt, num_servers=ns, k=k, happy=1, n=n)
+        try:
+            c = g.clients[0]
+            if prm["kind"] == "file":
+                contents = b"C13 read-only contents " + bytes(range(200))
+                mn = rt.wait(c.create_mutable_file(MutableData(contents), version=MDMF_VERSION if prm["mdmf"] else SDMF_VERSION))
+                rocap = mn.get_readonly_uri()
+                si = mn.get_storage_index()
+            else:
+                dn = rt.wait(c.create_dirnode())
+                rt.wait(dn.set_uri("child", LIT, LIT))
+                rocap = dn.get_readonly_uri()
+                si = dn.get_storage_index()
+            order = [s_.get_serverid() for s_ in g.broker.get_servers_for_psi(si)]
+            shares = sorted(g.share_files(si), key=lambda t: order.index(g.serverid(t[0])))
+            backups = []
+            for (_srv, _sh, path) in shares[:max(0, len(shares) - prm["intact"])]:
+                raw = open(path, "rb").read()
+                backups.append((path, raw))
+                import props.c10 as c10
+                (a, b) = c10.share_fields(raw[c10.DATA_OFFSET:])["share_data"]
+                pos = c10.DATA_OFFSET + a + min(5, b - a - 1)
+                with open(path, "wb") as fh:
+                    fh.write(raw[:pos] + bytes([raw[pos] ^ 0xFF]) + raw[pos + 1:])
+            ro = c.create_node_from_uri(rocap)
+            node = ro if prm["kind"] == "file" else ro._node
+            done = []
+
+            def request(tag, what):
+                d = ro.download_best_version() if prm["kind"] == "file" else (ro.list() if what == "list" else ro.has_child("child"))
+                box = []
+                d.addBoth(lambda r: (box.append(r), done.append(tag)) and None)
+                return (tag, d, box)
+
+            def finish(reqs):
+                out = {}
+                for (tag, d, box) in reqs:
+                    try:
+                        rt.wait(d)
+                    except grid.Stuck:
+                        pass
+                    out[tag] = "hung" if not box else ("err:" + box[0].type.__name__ if isinstance(box[0], Failure) else "ok")
+                return out
+            whats = ["list", "has", "list"]
+            first = [request("r%d" % i, whats[i % 3]) for i in range(prm["concurrent"])]
+            out = finish(first)
+            later = [request("later", "list")]
+            out.update(finish(later))
+            for (path, raw) in backups:
+                with open(path, "wb") as fh:
+                    fh.write(raw)
+            after = [request("after-restore", "has")]
+            out.update(finish(after))
+            names = [t for (t, _d, _b) in first + later + after]
+            paused = bool(getattr(node._serializer, "paused", 0)) or bool(getattr(node._serializer, "callbacks", []))
+            case = {"family": "readonly-retry", "params": prm, "outcomes": [(t, out[t]) for t in names], "completion_order": list(done),
+                    "serializer_still_busy": paused}
+            hung = [t for t in names if out[t] == "hung"]
+            if hung:
+                ctx.violation("operation(s) %s on a read-only node never finished although the grid was quiescent%s"
+                              % (", ".join(hung), "; the node's serializer chain is still paused, later operations are blocked" if paused else ""),
+                              case, "serialized-op-never-finished:self-deadlock" if paused else "serializer-blocked-real")
+            elif done != names:
+                ctx.violation("operations on one node finished out of request order", case, "serializer-order-real")
+            ctx.case(repr((prm["kind"], prm["seed"], prm["policy"], prm["intact"], prm["concurrent"])))
+            ctx.count("readonly-retry:%s:intact%sk:%s" % (prm["kind"], ">=" if prm["intact"] >= k else "<", "/".join(out[t] for t in names)))
+        finally:
+            g.close()
+
+
+def readonly_retry_corpus(ctx):
+    base = {"k": 3, "n": 10, "servers": 10, "mdmf": False}
+    for kind in ("file", "dir"):
+        readonly_retry_scenario(ctx, dict(base, kind=kind, seed=1, policy="random", intact=3, concurrent=3))
+        readonly_retry_scenario(ctx, dict(base, kind=kind, seed=2, policy="fifo", intact=2, concurrent=2))
+    readonly_retry_scenario(ctx, dict(base, kind="file", seed=3, policy="lifo", intact=3, concurrent=2, mdmf=True))
+
+
+def readonly_retry_family(ctx, rounds):
+    combos = [(kd, p) for p in ("random", "fifo", "lifo") for kd in ("file", "dir")]
+    for r in range(rounds):
+        kind, policy = combos[r % len(combos)]
+        k, n, ns = ctx.rng.choice([(3, 10, 10), (2, 6, 8), (3, 7, 7), (2, 5, 10)])
+        readonly_retry_scenario(ctx, {"kind": kind, "k": k, "n": n, "servers": ns, "mdmf": ctx.rng.random() < 0.3,
+                                      "seed": ctx.rng.randrange(1 << 30), "policy": policy,
+                                      "intact": ctx.rng.choice([k, k, k - 1, k + 1, 0, n]), "concurrent": ctx.rng.randrange(2, 4)})
+
+
 def run(ctx):
     import common
     common.setup_impl_path()
+    if ctx.replay and (ctx.replay.get("case") or {}).get("family") == "readonly-retry":
+        readonly_retry_scenario(ctx, ctx.replay["case"]["params"])
+        return
     if ctx.replay and (ctx.replay.get("case") or {}).get("family") == "collision":
         collision_scenario(ctx, ctx.replay["case"]["params"])
         return
@@ -826,8 +950,11 @@ def run(ctx):
         monitor_log(ctx, ops, log)
         ctx.compare("replayed schedule", [{"ops": ops}], [text], ctx.model(["ser " + " ".join(ops)]))
         return
+    readonly_retry_corpus(ctx)
     n = ctx.budget(400, 20000)
-    scheds = [gen_schedule(ctx.rng, ctx.rng.choice([3, 8, 15, 40])) for _ in range(n)]
+    corpus = [["q", "i:0", "q", "f:1:o", "f:0:o", "f:2:f", "t", "f:0:f"], ["q", "q", "i:0", "f:0:o", "t", "q"],
+              ["q", "r:0", "q", "f:0:o", "t", "f:1:o", "t"], ["q", "u:0", "q", "f:1:f", "t", "qo"]]
+    scheds = corpus + [gen_schedule(ctx.rng, ctx.rng.choice([3, 8, 15, 40])) for _ in range(n)]
     impls = []
     for ops in scheds:
         text, log = run_schedule_impl(ops)
@@ -843,6 +970,8 @@ def run(ctx):
                 inprog += 1
             elif o.startswith("f:") or o.startswith("u:"):
                 inprog = max(0, inprog - 1)
+            elif o.startswith("i:"):
+                overlap = True
         ctx.case(" ".join(ops) if overlap else None)
         for o in ops:
             ctx.count("ev:" + o.split(":")[0])
@@ -852,3 +981,4 @@ def run(ctx):
     nodemaker_cases(ctx, ctx.budget(100, 3000))
     grid_batches(ctx, ctx.budget(12, 400))
     collision_family(ctx, ctx.budget(18, 600))
+    readonly_retry_family(ctx, ctx.budget(6, 200))
